@@ -154,6 +154,9 @@ func GenerateTreeC03(r *Rng, root string, o GenOpts) *GenTree {
 				}
 			}
 		}
+		if r.Chance(30) {
+			g.c03LongTexts(r, dir) // fixes whose replaced text is longer than 200 bytes (c03_sizes.go)
+		}
 		if r.Chance(d / 2) {
 			cands := []string{"Makefile", "PLIST", "DESCR", "distinfo", "Makefile.common", "buildlink3.mk"}
 			if ents, err := os.ReadDir(g.Path(dir + "/patches")); err == nil {
